@@ -6,6 +6,7 @@ mod c08;
 mod c09;
 mod c12;
 mod c13;
+mod c14;
 mod c15;
 mod c16;
 mod c16conf;
@@ -31,6 +32,7 @@ fn registry(id: &str) -> Option<(RunFn, ReplayFn)> {
         "C09" => Some((c09::run, c09::replay)),
         "C12" => Some((c12::run, c12::replay)),
         "C13" => Some((c13::run, c13::replay)),
+        "C14" => Some((c14::run, c14::replay)),
         "C15" => Some((c15::run, c15::replay)),
         "C16" => Some((c16::run, c16::replay)),
         "C19" => Some((c19::run, c19::replay)),
